@@ -88,7 +88,26 @@ def nodeOf (j : Json) : Node :=
   { cls := natF j "cls", vals := (arrF j "vals").map optVal, pre := (arrF j "pre").map nat, init := (arrF j "init").map nat }
 
 def graphOf (j : Json) : Graph :=
-  { classes := (arrF j "classes").map (fun c => (arr c).map argOf), nodes := (arrF j "nodes").map nodeOf }
+  { classes := (arrF j "classes").map (fun c => (arr c).map argOf), nodes := (arrF j "nodes").map nodeOf,
+    tasks := (arrF j "tasks").map nat }
+
+def opOf (j : Json) : HOp :=
+  if strF j "o" == "submit" then .submit (natF j "n") else .assign (natF j "n") (natF j "k") (valOf (fld j "v"))
+
+def houtJ : HOut → Json
+  | .accepted => "accepted" | .rejected o => Json.str ("rejected-" ++ (match o with | .ok => "ok" | .missing => "missing" | .fuel => "fuel"))
+  | .already => "already" | .notTask => "not-task" | .stored => "stored" | .readonly => "readonly" | .invalid => "invalid"
+  | .noSuchNode => "no-such-node"
+
+def natsJ (l : List Nat) : Json := Json.arr ((l.mergeSort (· ≤ ·)).map (fun (n : Nat) => (n : Json))).toArray
+
+/-- run a history, printing for every operation the outcome and the state after it -/
+def runHist (I : Impl) : HState → List HOp → List Json
+  | _, [] => []
+  | s, op :: ops =>
+    let r := hstep I s op
+    Json.mkObj [("out", houtJ r.1), ("registry", r.2.registry.length), ("flags", natsJ r.2.flags.eraseDups),
+                ("job", natsJ r.2.jobAttr)] :: runHist I r.2 ops
 
 def outJ : Out → Json
   | .ok => "ok" | .missing => "missing" | .fuel => "fuel"
@@ -125,6 +144,9 @@ def step (_ : Unit) (j : Json) : Unit × Json :=
         ("flags2", vis2.length), ("submit", outJ so), ("jobs", s.jobs.length),
         ("missing_deep", reachMissing g (allSuccs g) [root] []),
         ("missing_walk", reachMissing g (succs I g) [root] [])]
+    | "history" =>
+      let s0 : HState := { g := graphOf j }
+      Json.mkObj [("steps", Json.arr (runHist I s0 ((arrF j "ops").map opOf)).toArray)]
     | op => Json.mkObj [("error", Json.str s!"bad-op {op}")]
   ((), out)
 
